@@ -86,6 +86,15 @@ CLAIMED = {
              "identities, copied total == position advance; the ring modulus derives only from the size the shm layer reports. One known "
              "finding (reported size of an existing segment depends on the opener's argument). " + DECIDES % "C08",
         technique="term-valued path-sensitive dataflow with lock typestate; linear-form normalisation of the space/copy identities over the finite set of position orderings"),
+    "C05": dict(
+        text="Rules C05.1-C05.5 on puthread.c / puthread-posix.c: native create and all initialising stores under the creation spinlock, "
+             "the new thread reads creator-initialised fields only after passing it; created handles start with 2 references, adopted "
+             "with 1, ref_count otherwise only through atomic inc/dec_and_test, release exactly when dec_and_test is TRUE, own reference "
+             "dropped by the destructor of the library TLS slot; join refuses non-joinable, waits on its handle, then reads ret_code; exit "
+             "stores the code before the native exit for library threads only; the key notifier is called only by replace_local under both "
+             "NULL tests before the new value is stored and is the native key's destructor; first-use key creation frees/deletes on the "
+             "losing and failing paths. " + DECIDES % "C05",
+        technique="spinlock typestate over the creator path, dominance rules for the proxy and join, who-touches-field rule for ref_count, guard dataflow at release and notifier calls, holder typestate in the TLS key creation"),
 }
 
 NOT_YET = "check not yet armed (framework under construction); see DESIGN.md section 4 for the planned structural clauses"
